@@ -261,12 +261,24 @@ func (m *c11Iso) same(path string, src any, dst pdf.Object, viaChain bool) {
 		if chain {
 			cls = "through-ref-chain"
 		}
-		if want, red := m.redirect[tnum]; red {
-			if d != want {
-				m.fail("redirect/"+cls, "%s: source %v ends in redirected object %d, target reference is %v, want %v", path, s, tnum, d, want)
+		// the first reference on the way from s to its terminal object that has
+		// a Redirect registered decides (the nearest mapping wins)
+		for n, depth := s, 0; depth < 64; depth++ {
+			if want, red := m.redirect[n.Num]; red {
+				if d != want {
+					m.fail("redirect/"+cls, "%s: source %v leads (through %d) to redirected object %d, target reference is %v, want %v", path, s, n.Num, tnum, d, want)
+				}
+				m.c.R.Count("redirected_references_checked", 1)
+				if n.Num != tnum {
+					m.c.R.Count("redirects_on_a_chain_member_checked", 1)
+				}
+				return
 			}
-			m.c.R.Count("redirected_references_checked", 1)
-			return
+			next, isRef := m.g.objs[n.Num].(kit.XRef)
+			if !isRef {
+				break
+			}
+			n = next
 		}
 		if prev, seen := m.fwd[tnum]; seen {
 			if prev != d {
@@ -616,6 +628,35 @@ func TestVerifC11(t *testing.T) {
 				ops = append(ops, fmt.Sprintf("Redirect(%d)", n))
 			}
 		}
+		// Redirect a reference-valued object in the middle of a chain c -> b -> a -> ...;
+		// a is copied first, so that a second mapping exists farther along the chain
+		var forced []uint32
+		if rng.Chance(1, 3) {
+			var mids [][3]uint32
+			for _, cn := range g.nums {
+				if bref, ok := g.objs[cn].(kit.XRef); ok && bref.Gen == 0 && !g.freed[cn] {
+					if aref, ok := g.objs[bref.Num].(kit.XRef); ok && aref.Gen == 0 && !g.freed[bref.Num] {
+						if _, _, ok := g.terminal(kit.XRef{Num: cn}); ok {
+							mids = append(mids, [3]uint32{cn, bref.Num, aref.Num})
+						}
+					}
+				}
+			}
+			if len(mids) > 0 {
+				m := kit.Pick(rng, mids)
+				if _, taken := redirect[m[1]]; !taken {
+					x := w.Alloc()
+					if err := w.Put(x, pdf.Dict{"RedirectedFrom": pdf.Integer(m[1])}); err != nil {
+						c.Violationf("harness/target-writer", "Put: %v", err)
+						return
+					}
+					cp.Redirect(pdf.NewReference(m[1], 0), x)
+					redirect[m[1]] = kit.XRef{Num: x.Number()}
+					ops = append(ops, fmt.Sprintf("Redirect(%d, a reference to %d)", m[1], m[2]))
+					forced = []uint32{m[2], m[0]}
+				}
+			}
+		}
 		type root struct {
 			src any
 			dst pdf.Object // reference into the target, or the object holding a copied direct value
@@ -623,10 +664,13 @@ func TestVerifC11(t *testing.T) {
 		}
 		var roots []root
 		nroots := 1 + rng.Intn(3)
-		for i := 0; i < nroots; i++ {
+		for i := 0; i < nroots+len(forced); i++ {
 			n := kit.Pick(rng, g.nums)
+			if i < len(forced) {
+				n = forced[i]
+			}
 			sref := pdf.NewReference(n, 0)
-			if rng.Chance(2, 3) {
+			if i < len(forced) || rng.Chance(2, 3) {
 				d1, err := cp.CopyReference(sref)
 				if err != nil {
 					c.Violationf("copy-error/CopyReference/"+srcKind, "CopyReference(%v): %v", sref, err)
